@@ -765,6 +765,7 @@ KV = "nostr_relay/storage/kv.py"
 WEB = "nostr_relay/web.py"
 
 MUTANTS = [
+    M("c13-query-task-wrapper", "nostr_relay/storage/base.py", "        self.query_task = asyncio.create_task(self.run_query())", "        self.query_task = asyncio.create_task(asyncio.wait([asyncio.ensure_future(self.run_query())]))", "C13.task"),
     M("c13-config-from-environ", "nostr_relay/config.py", "        for k, v in conf.items():\n            setattr(self, k, v)\n", "        for k, v in conf.items():\n            setattr(self, k, v)\n        for k, v in os.environ.items():\n            setattr(self, k.lower(), v)\n", "C13.config"),
     M("c13-notify-yields-first", "nostr_relay/storage/base.py", "            await self.queue.put((self.sub_id, event))", "            await asyncio.sleep(0)\n            await self.queue.put((self.sub_id, event))", "C13.atomic"),
     M("c13-bounded-queue", "nostr_relay/web.py", "subscription_queue = asyncio.Queue()", "subscription_queue = asyncio.Queue(1000)", "C13.queue"),
